@@ -100,5 +100,12 @@ let handle = function
     (match apply_all s work with
      | Err e -> "err " ^ err_name e
      | Ok s' -> dump (finish s'))
+  | "resolve" ->
+    (* registrations of one block, in registration order: offset, replaced length; the id is the position *)
+    let regs = List.mapi (fun i (o, l) -> (o, (i, l))) (listn (fun () -> let o = next_z () in let l = next_z () in (o, l))) in
+    let sorted = sort_mods regs in
+    if no_overlap (z_of_int 0) (fun (_, l) -> l) sorted
+    then "ok " ^ Stdlib.String.concat " " (List.map (fun (_, (i, _)) -> string_of_int i) sorted)
+    else "err AssertionError"
   | c -> failwith ("unknown command " ^ c)
 let () = main_loop handle
